@@ -153,7 +153,7 @@ def classify(res):
     """-> 'pass' | 'fail' | 'undecided' (+ reason)"""
     st = res.get("status")
     if st not in ("Success", "SUCCESS", "Successful") and not res.get("n_checks"):
-        return "undecided", "no check results (CBMC timeout / crash): " + str(res.get("reason", st))
+        return "undecided", "no check results (CBMC timeout / memory cap / crash): " + str(res.get("reason", st))
     if st == "NoResult":
         return "undecided", res.get("reason", "no result")
     fails = res.get("failed", [])
